@@ -17,7 +17,7 @@ import (
 func c14Opts(r *mon.RNG, i int) *gram.GenOpts {
 	prof := []int{gram.ProfStateful, gram.ProfDefault, gram.ProfLower}[i%3]
 	o := &gram.GenOpts{Profile: prof, MaxProds: 5, Budget: 12 + r.Intn(16), Depth: 2 + r.Intn(4), TokKinds: i%3 == 0, Unions: true,
-		SharePrefix: 3, CaptureBias: 4, SubBias: 3, AllowBang: true, NamesElided: i%6 == 5, OddLits: true}
+		SharePrefix: 3, CaptureBias: 4, SubBias: 3, AllowBang: true, NamesElided: i%6 == 5, OddLits: true, WholeBody: true}
 	if o.NamesElided {
 		o.Profile = gram.ProfStateful // only this profile has elided token types a grammar can name
 	}
@@ -426,7 +426,7 @@ func init() {
 		Assumptions: []string{"anonymous struct productions are outside the statement (named productions only)", "completeness is judged on multisets, not on tree shape"},
 		Batches:     func(t string) int { return pick(t, 4, 16) },
 		Floor:       func(t string) int { return pick(t, 100, 1200) },
-		TimeoutSec:  func(t string) int { return pick(t, 600, 1800) },
+		TimeoutSec:  func(t string) int { return pick(t, 300, 1800) },
 		Prepare:     gramPrepare("C14", func(t string) int { return pick(t, 350, 900) }, c14Opts, nil, false),
 		Child:       c14Child,
 	})
